@@ -14,6 +14,7 @@
 package main
 
 import (
+	"sync"
 	"sort"
 	"strings"
 )
@@ -102,6 +103,16 @@ func (n *sx) mentions(vars map[string]bool) bool {
 	return false
 }
 
+// spec functions emitted as (define-fun ...): the solver expands them, so they cannot occur in a pattern
+var definedHead = map[string]bool{}
+var definedHeadMu sync.Mutex
+
+func isDefinedHead(a string) bool {
+	definedHeadMu.Lock()
+	defer definedHeadMu.Unlock()
+	return definedHead[a]
+}
+
 // interpreted heads never usable as the head of a pattern
 var interpHead = map[string]bool{
 	"and": true, "or": true, "not": true, "=>": true, "=": true, "ite": true, "distinct": true, "xor": true,
@@ -137,7 +148,7 @@ func choosePattern(body string, bound []string) string {
 		if h.kids != nil { // ((_ extract ..) x), ((as const ..) v): interpreted
 			return false
 		}
-		if interpHead[h.atom] || strings.HasPrefix(h.atom, "bv") {
+		if interpHead[h.atom] || strings.HasPrefix(h.atom, "bv") || isDefinedHead(h.atom) {
 			return false
 		}
 		for _, k := range n.kids[1:] {
@@ -156,7 +167,7 @@ func choosePattern(body string, bound []string) string {
 		if h.kids == nil && (h.atom == "forall" || h.atom == "exists") {
 			return // inner quantifier: its variables are not ours; keep out
 		}
-		if h.kids == nil && !interpHead[h.atom] && pure(n) {
+		if h.kids == nil && !interpHead[h.atom] && !isDefinedHead(h.atom) && pure(n) {
 			for _, k := range n.kids[1:] {
 				if k.kids == nil && bv[k.atom] {
 					cands[k.atom] = append(cands[k.atom], n.str())
